@@ -34,6 +34,36 @@ CHECKS = {
              "between-property and any exclusion list; statistics; fluffiness >= 0 for every LOWESS answer; code floored; tables "
              "sorted. np.percentile's float result is a checked oracle; 'fluffiness finite' is a kernel property (monitored only).",
         ref='§6 C04', technique='Lean 4 proof over Rat (mergeSort, interpolation bounds) + checked-oracle correspondence'),
+    'C05': dict(
+        text="Lean theorems about the model of the whole cascade (run = construct, find_slices, find_groups, find_layers, with "
+             "agglomerative clustering, Gaussian mixtures and sorts as arbitrary parameters of the right shape): every hit with a "
+             "valid height has an id >= 0 at each level and every non-detection -1; the three tables list exactly the ids present, "
+             "once each, n_* = table length; equal layer id implies equal group id (sub-layer ids start beyond the largest group "
+             "id, F3 repaired); a group with ncomp = k owns exactly k layer ids; the data is the cropped input. Tie: the real "
+             "cascade is re-run by the model with the recorded third-party answers and all ids/tables/messages compared.",
+        ref='§6 C05', technique='Lean 4 proof (fold invariants over the cascade model) + end-to-end correspondence with recorded kernels'),
+    'C06': dict(
+        text="Lean theorems: min-sep bin = searchsorted-left entry, length check only refusal; the merge loop terminates within "
+             "its fuel and exits with all pairs separated, bases current and the table listing exactly the groups present (no "
+             "re-sort assumed); reported group bases pairwise >= minSep(upper) apart for every percentile/look-back/exclusion "
+             "setting (F2a repaired); re-merge pass: nothing merged implies components pairwise >= minSep apart. The equality "
+             "'reported layer base = component base' (F2b repaired) is checked by the correspondence on every split scene, "
+             "not yet a theorem.",
+        ref='§6 C06', technique='Lean 4 proof (loop invariant + termination by fuel) + end-to-end correspondence incl. exact min-sep ties'),
+    'C07': dict(
+        text="Lean theorems on the cropping model: no MSA => nothing cropped, flag false; flag iff #hits above MSA+buffer > "
+             "MAX_HITS_OKTA0; rows at/below the limit kept unchanged and in order; nothing above the limit left; heights above "
+             "the limit are irrelevant to the cropped frame, the flag and hence (run is a function of the cropped frame) to every "
+             "table; cropping is idempotent (replacement by non-detections). Tie: crop family with hits at, around and above the "
+             "limit, all hit types.",
+        ref='§6 C07', technique='Lean 4 proof (row-wise filterMap lemmas, congruence of run) + correspondence'),
+    'C15': dict(
+        text="Lean theorems on the model of check_data_consistency over coercible frames: it raises iff the documented list "
+             "holds (not a frame, empty, missing column, duplicated coerced rows, 0/non-0 or VV/non-VV on the same "
+             "(ceilometer,time)), every refusal is an AmpycloudError, output = the coerced rows in order with the four columns, "
+             "second pass is the identity and warns about no column/dtype. Tie: 600/12000 frames built by one or two defects; "
+             "raise/no-raise, class, values, dtypes, warning kinds, idempotence, argument untouched, chunk construction agrees.",
+        ref='§6 C15', technique='Lean 4 proof (case analysis of the check cascade) + defect-directed differential testing'),
     'C17': dict(
         text="Lean theorems C17_length/_char/_prefix/_at_most_three/_zero_never about the model of "
              "icao.significant_cloud for every integer sequence of any length; the model is tied to the real "
